@@ -75,6 +75,11 @@ class GridRng:
         return d / self.M
 
 
+class DecoderFailure(Exception):
+    """The third-party / library decoder itself raised: not an input of C11 (decoders are a
+    parameter of the property; their own validity is C05)."""
+
+
 class SpyDecoder:
     """Wraps a decoder, records (syndrome, correction) of every decode call."""
 
@@ -84,7 +89,10 @@ class SpyDecoder:
 
     def decode(self, syndrome, **kw):
         s = [int(x) for x in syndrome]
-        c = self._inner.decode(syndrome, **kw)
+        try:
+            c = self._inner.decode(syndrome, **kw)
+        except Exception as e:  # noqa
+            raise DecoderFailure(f'{type(e).__name__}: {e}') from e
         self.calls.append((s, [int(x) for x in c]))
         return c
 
@@ -125,7 +133,7 @@ def build(combo):
     r = [float(Fraction(x)) for x in combo['r']]
     em = PauliErrorModel(*r, deformation_name=combo.get('ndeform'))
     p = float(Fraction(combo['p']))
-    dec = DECODERS[combo['decoder']](code, em, p, **combo.get('dparams', {}))
+    dec = SpyDecoder(DECODERS[combo['decoder']](code, em, p, **combo.get('dparams', {})))
     return code, em, dec, p
 
 
@@ -288,6 +296,9 @@ def correspondence(ctx):
         for sd in seeds:
             try:
                 rec = run_once(code, em, dec, p, rng=np.random.default_rng(sd))
+            except DecoderFailure as e:
+                ctx.notes.append(f'decoder raised, trial not used: {tag_of(combo)} {combo["size"]} seed {sd}: {e}')
+                continue
             except Exception as e:
                 answers = f'EXC:{type(e).__name__}'
                 ok = False
@@ -304,7 +315,7 @@ def correspondence(ctx):
     for combo, code, em, dec, p in built:
         if code.n > 40 and not ctx.thorough:
             continue
-        spy = SpyDecoder(dec)
+        spy = SpyDecoder(dec._inner)
         n_ops = int(rng.integers(3, 7))
         ops = []
         total = 0
@@ -326,7 +337,10 @@ def correspondence(ctx):
                 outs.append(guarded(lambda: canon_summary(sim.get_results())))
             else:
                 outs.append(guarded(lambda: (sim.run(int(op[1:])), 'ok')[1],
-                                    {'ValueError': 'ERR rate'}))
+                                    {'ValueError': 'ERR rate', 'DecoderFailure': 'DECODER-RAISED'}))
+        if 'DECODER-RAISED' in outs:
+            ctx.notes.append(f'decoder raised, history not used: {tag_of(combo)} {combo["size"]}')
+            continue
         outs.append(guarded(lambda: canon_state(sim, stub)))
         pr = probs_of(code, em, p)
         pairs = ';'.join(f'{vec(a)}~{vec(b)}' for a, b in spy.calls) or '-'
@@ -422,7 +436,10 @@ def calibration_cases(thorough, deep):
         add('Planar2DCode', (2, 2), 'BeliefPropagationOSDDecoder', ['1/4', '1/4', '1/2'], '1', 4, dparams=bp)
         add('RotatedPlanar2DCode', (2, 3), 'MatchingDecoder', ['1/2', '1/2', '0'], '1/2', 4)
         add('RotatedPlanar2DCode', (3, 2), 'MatchingDecoder', ['0', '1/2', '1/2'], '1/2', 4, ndeform='XZZX')
-        add('Toric2DCode', (2, 2), 'MatchingDecoder', ['1', '0', '0'], '1/4', 4)
+        if thorough:
+            add('Toric2DCode', (2, 2), 'MatchingDecoder', ['1', '0', '0'], '1/4', 4)
+        else:
+            add('Toric2DCode', (2, 2), 'MatchingDecoder', ['1', '0', '0'], '1/2', 2)
         add('Toric2DCode', (2, 2), 'UnionFindDecoder', ['0', '0', '1'], '1/2', 2)
         add('RotatedPlanar2DCode', (3, 3), 'MatchingDecoder', ['1/2', '0', '1/2'], '1', 2)
         add('RotatedPlanar2DCode', (3, 3), 'MatchingDecoder', ['0', '1', '0'], '1/2', 2, ndeform='XZZX')
@@ -437,7 +454,7 @@ def run_grid(case):
     from panqec.simulation import DirectSimulation
     code, em, dec, p = build(case)
     M, n = case['M'], code.n
-    spy = SpyDecoder(dec)
+    spy = dec
     sim = DirectSimulation(code, em, spy, p, verbose=False, rng=GridRng(M, n))
     sim.run(M ** n)
     r = sim.get_results()
@@ -504,7 +521,7 @@ def check_case(case):
             return record_violation(code, rec)
         if kind == 'history':
             code, em, dec, p = build(case['combo'])
-            spy = SpyDecoder(dec)
+            spy = dec
             sim = DirectSimulation(code, em, spy, p, verbose=False, rng=np.random.default_rng(case['seed']))
             total = 0
             for k in case['runs']:
@@ -560,6 +577,8 @@ def check_case(case):
             return None
         if kind == 'calibration':
             return calibration_violation(case['case'])
+    except DecoderFailure:
+        return None          # the decoder itself raised: outside C11
     except Exception as e:  # noqa
         return f'raised {type(e).__name__}: {e}'
     return None
